@@ -6,6 +6,6 @@ CONTRACTS = list(_C) + [StoredEditsNative] + [FormatLength] + [FileNameSet]
 
 MANIFEST = {
     "category": "proof",
-    "text": "Per-element coercion contracts: IntegerData.format_type accepts exactly the integral values that fit the stored 32-bit type and stores them unchanged (integer and float inputs, modelled with the cast's wrap-around semantics, so a wrap is a failed obligation); BooleanData.format_type accepts exactly 0/1 and maps 1 to True; NumericData.format_values/format_length give one entry per vertex/cell, pad with the no-data value and refuse more entries than the geometry for 1-D and 2-D inputs. The storage round trip through a real file (NaN <-> float no-data code, infinities, sub-normals, 32-bit boundaries, booleans as 0/1, reference keys and labels with key 0 = Unknown, Unicode text) is a bounded stand-in inspecting the raw dataset. Round-6 additions: assigning values never alters the caller's array (also `b.values = a.values`), blobs from 1 B to 3 MiB, file-name setter contract. Round-7 additions: entries added to stored metadata in the same and in a later session, refused creations (too many vertex / cell values, vertices of the wrong shape) leave nothing among the parent's children nor in the file, removals in a later session keep NaN entries.",
+    "text": "Per-element coercion contracts: IntegerData.format_type accepts exactly the integral values that fit the stored 32-bit type and stores them unchanged (integer and float inputs, modelled with the cast's wrap-around semantics, so a wrap is a failed obligation); BooleanData.format_type accepts exactly 0/1 and maps 1 to True; NumericData.format_values/format_length give one entry per vertex/cell, pad with the no-data value and refuse more entries than the geometry for 1-D and 2-D inputs. The storage round trip through a real file (NaN <-> float no-data code, infinities, sub-normals, 32-bit boundaries, booleans as 0/1, reference keys and labels with key 0 = Unknown, Unicode text) is a bounded stand-in inspecting the raw dataset. Round-6 additions: assigning values never alters the caller's array (also `b.values = a.values`), blobs from 1 B to 3 MiB, file-name setter contract. Round-7 additions: entries added to stored metadata in the same and in a later session, refused creations (too many vertex / cell values, vertices of the wrong shape) leave nothing among the parent's children nor in the file, removals in a later session keep NaN entries. Round-8 additions: the float no-data code in the stored arrays of concatenated logs (1-5 samples, also one-sample logs), and a data set's array is its own: later edits of the caller's array, or of the array the data set hands out, stay where they are made.",
     "note": "floats are reals in the coercion proofs (NaN/inf excluded there; covered by the bounded round trip); numpy cast/modf axioms assumed (audited); writer/reader value branches, FilenameData blobs, concatenated float32 narrowing and value-map writing are only in the bounded part.",
 }
